@@ -14,7 +14,7 @@ def run(ctx):
               "array of the documented shape, n_features_in_ = d, transform maps (n, d) to (n, k), M is symmetric and PSD "
               "(exact LDL^T of M + 1e-9 max|M| I on rationals). distinct = distinct (estimator, options, data).")
   ctx.trusted = ["Coq 8.16.1 kernel + vm_compute", "shape rule and PSD certificate checkers in Model/CaseDefs.v",
-                 "soundness of the exact LDL^T test is not yet mechanised", "that every solver returns such an L is explored, not proved"]
+                 "that every solver returns such an L is explored, not proved"]
   ok = ctx.build_property()
   terms, recs = [], []
   nrounds = 3 if thorough else 1
